@@ -2,9 +2,10 @@
    return a value, the library's data error, or `Unmodelled`; never another exception, never OutOfFuel. *)
 From Coq Require Import List Arith NArith ZArith Bool Lia.
 From Coq Require Import Strings.Byte.
-Require Import CU.model.Prim CU.model.Types CU.model.Unicode CU.model.Codec CU.model.Dates CU.model.Card CU.model.Iso.
+Require Import CU.model.Prim CU.model.Types CU.model.Unicode CU.model.Regex CU.model.Codec CU.model.Dates CU.model.Card CU.model.Iso.
 Require Import CU.model.Block CU.model.Vbs CU.model.Ipm CU.spec.FramingSpec.
 Require Import CU.proofs.BlockProofs CU.proofs.VbsProofs CU.proofs.NumProofs CU.proofs.IsoFraming.
+Require CU.gen.GenConfig.
 Import ListNotations.
 Open Scope nat_scope.
 
@@ -13,6 +14,12 @@ Definition benign {A} (r : result A) : Prop :=
   match r with Ok _ | Raise EData | Unmodelled => True | _ => False end.
 
 Definition has_lengths (cfg : cfgT) : Prop := forall n c, cfg_get cfg n = Some c -> f_len c <> None.
+
+(* the merchant-field processor splits text: a configuration that puts it, WITH a pattern, on an int / datetime element is a
+   caller error (re.match then raises TypeError whatever the message says); without a pattern it does nothing *)
+Definition de43_text (c : fieldcfg) : Prop := f_proc c = PDE43 -> f_ptype c <> PTStr -> f_de43 c = D43None.
+Definition de43_on_text (cfg : cfgT) : Prop :=
+  forall n c, cfg_get cfg n = Some c -> f_proc c = PDE43 -> f_ptype c <> PTStr -> f_de43 c = D43None.
 
 Lemma it_benign_bind {A B} (r : result A) (k : A -> result B) :
   benign r -> (forall a, r = Ok a -> benign (k a)) -> benign (bind r k).
@@ -90,11 +97,11 @@ Proof.
   destruct (py_int s) as [z|]; [|exact I]. destruct (z <? 0)%Z; exact I.
 Qed.
 
-Lemma it_fbody_benign bit c D cd fl : benign (fbody bit c D cd fl).
+Lemma it_fbody_benign bit c D cd fl : de43_text c -> benign (fbody bit c D cd fl).
 Proof.
-  unfold fbody. set (raw := slice (psize (f_type c)) (psize (f_type c) + fl) D).
-  destruct (f_proc c).
-  1, 2, 3, 6:
+  unfold fbody, de43_text. set (raw := slice (psize (f_type c)) (psize (f_type c) + fl) D).
+  intros HD. destruct (f_proc c).
+  1, 2, 3:
     apply it_benign_bind; [apply it_catch_decode|]; intros s0 _;
     apply it_benign_bind; [apply it_s2p_benign|]; intros v _; exact I.
   - destruct (f_ptype c); try exact I.
@@ -103,34 +110,41 @@ Proof.
     apply it_benign_bind; [apply it_s2p_benign|]. intros v _.
     destruct v as [t|z|bb|dd]; try exact I.
     apply it_benign_bind; [apply it_total_benign, c07_pds_walk_total|]. intros sub _. exact I.
+  - apply it_benign_bind; [apply it_catch_decode|]. intros s0 _.
+    apply it_benign_bind; [apply it_s2p_benign|]. intros v Hv. apply if_catch_ok in Hv.
+    assert (HN : (forall t, v <> VStr t) -> f_de43 c = D43None).
+    { intros Hn. apply HD; [reflexivity|]. intros Ep. unfold string_to_pytype in Hv. rewrite Ep in Hv.
+      inversion Hv; subst v. eapply Hn; reflexivity. }
+    destruct v as [t|z|bb|dd]; try (rewrite HN by discriminate; exact I).
+    destruct (de43_fields (f_de43 c) t); exact I.
 Qed.
 
-Lemma it_field_benign bit c D cd : f_len c <> None -> benign (iso_to_field bit c D cd).
+Lemma it_field_benign bit c D cd : f_len c <> None -> de43_text c -> benign (iso_to_field bit c D cd).
 Proof.
-  intros HL. rewrite iso_to_field_eq. destruct (f_len c) as [fl0|]; [|congruence].
-  apply it_benign_bind; [apply it_flen_benign|]. intros fl _. apply it_fbody_benign.
+  intros HL HD. rewrite iso_to_field_eq. destruct (f_len c) as [fl0|]; [|congruence].
+  apply it_benign_bind; [apply it_flen_benign|]. intros fl _. apply it_fbody_benign. exact HD.
 Qed.
 
 (* ====================================================================== the element loop and loads *)
-Lemma it_dec_fields_benign cfg cd present data : has_lengths cfg ->
+Lemma it_dec_fields_benign cfg cd present data : has_lengths cfg -> de43_on_text cfg ->
   forall bits ptr acc, benign (dec_fields cfg cd present bits data ptr acc).
 Proof.
-  intros HL. induction bits as [|b bs IH]; intros ptr acc; cbn [dec_fields]; [exact I|].
+  intros HL HD. induction bits as [|b bs IH]; intros ptr acc; cbn [dec_fields]; [exact I|].
   destruct (present b); [|apply IH].
   destruct (cfg_get cfg b) as [c|] eqn:Ec; [|exact I].
-  apply it_benign_bind; [apply it_field_benign; eapply HL; exact Ec|].
+  apply it_benign_bind; [apply it_field_benign; [eapply HL; exact Ec|exact (HD b c Ec)]|].
   intros [es inc] _. apply IH.
 Qed.
 
-Lemma c07_loads_total : forall cfg cd hexbm b, has_lengths cfg -> benign (loads cfg cd hexbm b).
+Lemma c07_loads_total : forall cfg cd hexbm b, has_lengths cfg -> de43_on_text cfg -> benign (loads cfg cd hexbm b).
 Proof.
-  intros cfg cd hexbm b HL. unfold loads.
+  intros cfg cd hexbm b HL HD. unfold loads.
   destruct (length b <? (if hexbm then 36 else 20)); [exact I|].
   apply it_benign_bind.
   { destruct hexbm; [|exact I]. destruct (unhexlify (ascii_str (slice 4 36 b))); exact I. }
   intros bm _. apply it_benign_bind; [apply it_catch_decode|]. intros mti _.
   destruct (py_int mti) as [z|]; [|exact I].
-  apply it_benign_bind; [apply it_dec_fields_benign; exact HL|]. intros [d p] _.
+  apply it_benign_bind; [apply it_dec_fields_benign; [exact HL|exact HD]|]. intros [d p] _.
   destruct (Nat.eqb p (length (skipn (if hexbm then 36 else 20) b))); exact I.
 Qed.
 
@@ -187,6 +201,7 @@ Qed.
 Variable cfg : cfgT.
 Variable cd : codec.
 Hypothesis HL : has_lengths cfg.
+Hypothesis HD : de43_on_text cfg.
 
 Lemma it_inext_total r : sok B (rstream r) ->
   (exists r' o, inext B maxlen cfg cd r = Ok (r', o) /\ sok B (rstream r') /\
@@ -196,7 +211,7 @@ Proof.
   intros Hok. unfold inext.
   destruct (it_rnext_total r Hok) as (r' & o & E & Ok' & Hlt). rewrite E. cbn [bind].
   destruct o as [rec| |n ctx].
-  - pose proof (c07_loads_total cfg cd false rec HL) as Hb.
+  - pose proof (c07_loads_total cfg cd false rec HL HD) as Hb.
     destruct (loads cfg cd false rec) as [d|e| |].
     + left. eexists _, _. split; [reflexivity|]. split; [exact Ok'|]. intros d' _. apply (Hlt rec). reflexivity.
     + destruct e; try contradiction Hb.
@@ -218,12 +233,43 @@ Qed.
 
 End Reader.
 
-Lemma c07_ipm_reader_total : forall B maxlen cfg cd f blocked, 0 < B -> has_lengths cfg ->
+Lemma c07_ipm_reader_total : forall B maxlen cfg cd f blocked, 0 < B -> has_lengths cfg -> de43_on_text cfg ->
   benign (iread_all B maxlen cfg cd f blocked).
 Proof.
-  intros B maxlen cfg cd f blocked HB HL. unfold iread_all. apply it_iread_benign; [exact HL| |].
+  intros B maxlen cfg cd f blocked HB HL HD. unfold iread_all. apply it_iread_benign; [exact HL|exact HD| |].
   - destruct blocked; cbn [rinit sopen rstream sok]; [exact HB|exact I].
   - destruct blocked; cbn [rinit sopen rstream srem].
     + rewrite (urem_init B HB). pose proof (payload_length_le B f). lia.
     + cbn [fopen fpos fdata skipn]. lia.
 Qed.
+
+(* ====================================================================== the packaged configuration *)
+Definition it_saneb (c : fieldcfg) : bool :=
+  match f_len c with Some _ => true | None => false end &&
+  match f_proc c, f_ptype c, f_de43 c with
+  | PDE43, PTStr, _ | PDE43, _, D43None => true
+  | PDE43, _, _ => false
+  | _, _, _ => true
+  end.
+
+Lemma it_cfg_get_in : forall cfg n c, cfg_get cfg n = Some c -> exists b, In (b, c) cfg.
+Proof.
+  induction cfg as [|[b0 c0] r IH]; intros n c H; cbn [cfg_get] in H; [discriminate H|].
+  destruct (Nat.eqb b0 n).
+  - inversion H; subst. exists b0. left. reflexivity.
+  - destruct (IH n c H) as (b & Hb). exists b. right. exact Hb.
+Qed.
+
+Lemma it_saneb_sound cfg : forallb (fun bc => it_saneb (snd bc)) cfg = true -> has_lengths cfg /\ de43_on_text cfg.
+Proof.
+  intros H. rewrite forallb_forall in H.
+  assert (S : forall n c, cfg_get cfg n = Some c -> it_saneb c = true).
+  { intros n c Hc. destruct (it_cfg_get_in cfg n c Hc) as (b & Hb). exact (H (b, c) Hb). }
+  split; intros n c Hc; specialize (S n c Hc); unfold it_saneb in S; apply andb_true_iff in S; destruct S as [S1 S2].
+  - intros E. rewrite E in S1. discriminate S1.
+  - intros Ep Et. rewrite Ep in S2. destruct (f_ptype c); [contradiction Et; reflexivity| | |];
+      (destruct (f_de43 c); [reflexivity|discriminate S2|discriminate S2]).
+Qed.
+
+Lemma c07_packaged_sane : has_lengths CU.gen.GenConfig.packaged_bit_config /\ de43_on_text CU.gen.GenConfig.packaged_bit_config.
+Proof. apply it_saneb_sound. vm_compute. reflexivity. Qed.
